@@ -113,31 +113,75 @@ func (c *Ctx) attrSource(v ssa.Value) string {
 	}
 	chain, base := fieldPath(v)
 	if len(chain) > 0 {
-		b := "?"
-		switch x := resolve(base).(type) {
-		case *ssa.Parameter:
-			b = x.Name()
-		case *ssa.Alloc:
-			b = x.Comment
-		case *ssa.Call:
-			if x.Call.StaticCallee() != nil {
-				b = x.Call.StaticCallee().Name() + "()"
+		return logRole(base, 0) + "." + pathString(chain)
+	}
+	return "?"
+}
+
+// logRole names what a value IS in the logging middleware, whatever the local variable holding it is called: the
+// request ("r": the handler's parameter or what WithContext/Clone make of it), the counting writer ("writer": made by
+// newLoggerResponseWriter) or the per-request logging context ("loggingRequestContext": the local struct of that type).
+func logRole(v ssa.Value, depth int) string {
+	return logRoleIn(v, depth, map[*ssa.Alloc]bool{})
+}
+
+func logRoleIn(v ssa.Value, depth int, visiting map[*ssa.Alloc]bool) string {
+	if depth > 12 || v == nil {
+		return "?"
+	}
+	logRole := func(v ssa.Value, d int) string { return logRoleIn(v, d, visiting) }
+	switch x := v.(type) {
+	case *ssa.Parameter:
+		if namedOf(x.Type()) == "net/http.Request" {
+			return "r"
+		}
+		return "?"
+	case *ssa.Call:
+		switch calleeName(x.Common()) {
+		case "(*net/http.Request).WithContext", "(*net/http.Request).Clone":
+			return logRole(x.Call.Args[0], depth+1)
+		}
+		if f := x.Call.StaticCallee(); f != nil && f.Name() == "newLoggerResponseWriter" {
+			return "writer"
+		}
+		return "?"
+	case *ssa.Alloc:
+		if strings.HasSuffix(namedOf(x.Type()), ".loggingRequestContext") {
+			if _, isPtr := x.Type().Underlying().(*types.Pointer).Elem().Underlying().(*types.Struct); isPtr {
+				return "loggingRequestContext"
 			}
-		case *ssa.FreeVar:
-			b = x.Name()
 		}
-		if fv, ok := base.(*ssa.FreeVar); ok {
-			b = fv.Name()
+		// a local variable: what is assigned to it (`r = r.WithContext(ctx)` refers back to the variable itself: neutral)
+		if visiting[x] {
+			return ""
 		}
-		if u, ok := base.(*ssa.UnOp); ok {
-			switch x := u.X.(type) {
-			case *ssa.FreeVar:
-				b = x.Name()
-			case *ssa.Alloc:
-				b = x.Comment
+		visiting[x] = true
+		defer delete(visiting, x)
+		role := ""
+		for _, st := range storesToCell(x) {
+			r := logRole(st.Val, depth+1)
+			if r == "" {
+				continue
 			}
+			if role != "" && r != role {
+				return "?"
+			}
+			role = r
 		}
-		return b + "." + pathString(chain)
+		if role == "" {
+			return "?"
+		}
+		return role
+	case *ssa.FreeVar:
+		return logRole(freeVarBinding(x), depth+1)
+	case *ssa.UnOp:
+		if x.Op == token.MUL {
+			return logRole(x.X, depth+1)
+		}
+	case *ssa.ChangeType:
+		return logRole(x.X, depth+1)
+	case *ssa.MakeInterface:
+		return logRole(x.X, depth+1)
 	}
 	return "?"
 }
@@ -190,7 +234,7 @@ func r192(c *Ctx) {
 	okCtx := false
 	for _, cs := range callsToName(serve, "context.WithValue") {
 		if mi, ok := cs.common().Args[2].(*ssa.MakeInterface); ok {
-			if a, ok := mi.X.(*ssa.Alloc); ok && a.Comment == "loggingRequestContext" {
+			if logRole(mi.X, 0) == "loggingRequestContext" {
 				// that context is attached to the request passed on
 				for _, wc := range callsToName(serve, "(*net/http.Request).WithContext") {
 					if wc.common().Args[1] == cs.instr.(ssa.Value) {
